@@ -163,7 +163,10 @@ def maybe_subset(spec, p=0.3, force=False):
     else:
         idx = [0] + sorted(r2.sample(range(1, h - 1), r2.randint(1, h - 3))) + [h - 1]
     spec["times_subset"] = idx
-    spec["ops"] = []
+    # series offered for export keep their explicit stamps (those given without stamps refer to times())
+    spec["ops"] = [o for o in spec["ops"] if o["op"] in ("full", "part")]
+    if force and not spec["ops"]:
+        spec["ops"] = [{"op": "full", "member": 0, "values": [str(Fraction(7 * i - 9, 2)) for i in range(len(spec["axis"]))]}]
     return spec
 
 
@@ -427,7 +430,8 @@ def run_opt(spec):
                     # a series offered with set_timeseries(output=True): its stored values from t0 on
                     try:
                         ts = p.get_timeseries(nm, m)
-                        obs["results"][str(m)][nm] = [fval(x) for x in ts.values[len(ts.values) - len(p.times()):]]
+                        pos = [int(np.argmin(np.abs(ts.times - t))) for t in p.times()]
+                        obs["results"][str(m)][nm] = [fval(ts.values[i]) for i in pos]
                     except KeyError:
                         pass
         obs["export"] = read_export(spec, kwargs, outputs)
@@ -779,6 +783,10 @@ def run(ctx):
             if c["E"] > 1:
                 c["E"] = 1
                 c["series"] = {"0": c["series"]["0"]}
+            while not triples and len(c["axis"]) - c["k"] < 5:
+                c["axis"] = c["axis"] + [c["axis"][-1] + c["dt"]]
+                for nm, vals in c["series"]["0"].items():
+                    vals.append(vals[-1])
             maybe_subset(c, 0.4, force=not triples)
             tri = []
             for b in ("csv", "pi", "netcdf"):
